@@ -227,7 +227,7 @@ def reauthorize(chk, facts):
                 a = core[0][1]
                 # evaluator arg derives from Evaluator::new(concretized request, entities arg) with an unknowns mapper over `mapping`
                 ev = a[1]
-                ok_core = any(c.endswith("Evaluator::<'e>::new") for c in res_calls(ev)) and any(c.endswith("with_unknowns_mapper") for c in res_calls(ev)) \
+                ok_core = any(c.endswith("Evaluator::new") for c in res_calls(ev)) and any(c.endswith("with_unknowns_mapper") for c in res_calls(ev)) \
                     and any(c.endswith("concretize_request") for c in res_calls(ev)) and ("arg4",) in syms(ev) \
                     and any(c.endswith("all_residual_policies") for c in res_calls(a[3])) \
                     and any(c.endswith("concretize_request") for c in res_calls(a[2]))
